@@ -20,13 +20,14 @@ def run(ctx: Ctx) -> int:
         "narrow claim, decided by bounded symbolic execution (CrossHair/z3): (1) state isolation - for all constants every comparison kernel leaves the module-level universes, "
         "key lists and enumeration tuples equal to their previous value and returns fresh objects (mutating a result or a universal set does not change a later call); (2) order "
         "independence - union/intersection of every domain (integer sets, kinds, address representations over 10 symbolic Booleans, fee pairs) are commutative, associative, "
-        "idempotent, absorbing and monotone, which makes the worklist fixpoint unique; the real forward/backward solvers of GroupIndices are run on a 4-block function with a "
-        "solver-chosen permutation of both initial worklists and give the same sets; (3) every detector, run on contexts with symbolic content, leaves them unchanged. Outside the "
+        "idempotent, absorbing and monotone, which makes the worklist fixpoint unique; the real forward/backward solvers of GroupIndices are run on a 4-block function and on a "
+        "13-block function with three subroutines (shared callee, two call chains with different contexts) under a solver-chosen schedule (24 / 48-400 orders of both initial "
+        "worklists; the choice is the symbolic variable, the analysis itself then runs concretely inside NoTracing) and give the same sets; (3) every detector, run on contexts with symbolic content, leaves them unchanged. Outside the "
         "technique: PYTHONHASHSEED, object-address order of list(set(..)), byte-identical JSON across processes - properties of interpreter runs, not of a function a solver can range over",
         [D.forward_analyis, D.backward_analysis, GroupIndices._get_asserted_int_values, du.validated_in_block, du.detect_missing_tx_field_validations],
         {"permutations": "24 orders of each initial worklist", "sets": "3-element universes per lattice law"},
         ["hash-seed / process-level determinism is not claimed"],
-        timeout_quick=200, timeout_thorough=600,
+        timeout_quick=400, timeout_thorough=1200,
     )
 
 
